@@ -8,6 +8,7 @@ import Nstd.Json.LemmasRfcOut
 import Nstd.Json.LemmasNum
 import Nstd.Json.LemmasSur
 import Nstd.Json.LemmasRfcNot
+import Nstd.Json.LemmasStripRfc
 /-
   Property C15 (JSON: total, safe, round trip; stripComments removes exactly the comments).
   Only the property theorems and their non-vacuity examples live here.
@@ -379,6 +380,41 @@ theorem strip_length_le (buf : List Byte) (h : 0 ∈ buf) :
 theorem strip_no_slash_id (buf : List Byte) (h : 0 ∈ buf) (hs : 47 ∉ cstr buf) :
     stripComments buf = .ok (cstr buf) := by
   rw [strip_spec buf h, stripSpec_no_slash _ _ (Or.inl rfl) hs]
+
+/-- the declarative specification: `Stripped t t'` (LemmasStripRfc.lean) describes comment removal as a
+    relation over the text — plain bytes, a `/` that starts no comment, string literals (`StrBody`: `\x`
+    pairs for ANY x, so escaped quotes and escaped backslashes stay inside the literal) copied verbatim,
+    `//` comments removed up to the CR/LF which is kept, `/* */` comments removed except their CR/LF bytes,
+    unterminated comments/literals extend to the end — and `stripComments` computes it, for every text -/
+theorem strip_declarative (t t' : List Byte) (h : Stripped t t') (h0 : 0 ∉ t) : stripComments (t ++ [0]) = .ok t' := by
+  rw [strip_spec _ (by simp), cstr_append_nf t [0] h0]
+  simp only [cstr, if_true, List.append_nil]
+  rw [stripped_spec h]
+
+/-- a comment-free text is unchanged: EVERY JSON-text of RFC 8259 (where `/`, `//`, `/*` can only occur
+    inside string literals) is returned as it is -/
+theorem strip_rfc_text_unchanged (t : List Byte) (tr : Rfc.Tree) (h : Rfc.Text t tr) :
+    stripComments (t ++ [0]) = .ok t := by
+  obtain ⟨h1, h0⟩ := strip_text h
+  rw [strip_spec _ (by simp), cstr_append_nf t [0] h0]
+  simp only [cstr, if_true, List.append_nil]
+  rw [h1]
+
+/-- strip, then parse: if removing the comments of `t` (keeping the line breaks of block comments, i.e.
+    reading a comment as white space) leaves a JSON-text with meaning `v`, then parsing the output of
+    `stripComments` yields `v` -/
+theorem strip_then_parse (t t' : List Byte) (tr : Rfc.Tree) (v : Val) (h : Stripped t t') (h0 : 0 ∉ t)
+    (ht : Rfc.Text t' tr) (hv : interp tr = some v) :
+    ∃ out, stripComments (t ++ [0]) = .ok out ∧ parse (out ++ [0]) = .ok v :=
+  ⟨t', strip_declarative t t' h h0, accepts_rfc t' tr v ht hv⟩
+
+-- `1//c` LF  ↦  `1` LF ;  `/*a` LF `*/1`  ↦  LF `1` ;  `"\\" // c` keeps the literal `"\\"` and drops the comment
+example : Stripped [49, 47, 47, 99, 10] [49, 10] :=
+  .plain 49 (by decide) (by decide) (.line [99] 10 (by intro x hx; simp at hx; omega) (Or.inr rfl) .nil)
+example : Stripped [47, 42, 97, 10, 42, 47, 49] [10, 49] :=
+  .block [97, 10] (r := [49]) (r' := [49]) (by decide) (.plain 49 (by decide) (by decide) .nil)
+example : Stripped [34, 92, 92, 34, 32, 47, 47, 32, 99] [34, 92, 92, 34, 32] :=
+  .str (body := [92, 92]) (.esc 92 .nil) (.plain 32 (by decide) (by decide) (.lineOpen [32, 99] (by intro x hx; simp at hx; omega)))
 
 -- non-vacuity / the four repaired inputs: `/** x */1`, `"a\nb // x"`, `"\\" // c`
 example : stripComments [47, 42, 42, 32, 120, 32, 42, 47, 49, 0] = .ok [49] := by decide
